@@ -381,14 +381,58 @@ Fixpoint run_specs (lc : str -> dval -> option exn) (ds : delegations) (l : list
               let '(ds2, os) := run_specs lc ds1 r in (ds2, o :: os)
   end.
 
-Definition observe_ops (t : verdicts) (ty : dtype) (l : list spec) : val :=
+(* Delegation(...), optionally Kind(kwargs dd) and set_details: the delegation (None when the constructor
+   refused) and the outcome of every step that ran *)
+Definition build_spec (lc : str -> dval -> option exn) (s : spec) : option deleg * val :=
+  match new_deleg (s_type s) (s_id s) (s_fmt s) (s_pool s) with
+  | Err e => (None, VL [VErr (exn_name e)])
+  | Ok d0 =>
+      match s_details s with
+      | None => (Some d0, VL [VB true])
+      | Some (k, dd) =>
+          match obj_of_dict lc k dd with
+          | Err e => (Some d0, VL [VB true; VErr (exn_name e)])
+          | Ok x => match set_details d0 x with
+                    | Ok d1 => (Some d1, VL [VB true; VB true; VB true])
+                    | Err e => (Some d0, VL [VB true; VB true; VErr (exn_name e)])
+                    end
+          end
+      end
+  end.
+
+(* add_delegations with several arguments (lines 148-158): they are added one after the other; the first
+   refusal raises and what was added before it stays in the container *)
+Fixpoint add_delegations (ds : delegations) (l : list deleg) : delegations * option exn :=
+  match l with
+  | [] => (ds, None)
+  | d :: r => match add_delegation ds d with
+              | Ok ds' => add_delegations ds' r
+              | Err e => (ds, Some e)
+              end
+  end.
+
+(* batches of specs: every batch is built, then handed to ONE add_delegations call *)
+Fixpoint run_batches (lc : str -> dval -> option exn) (ds : delegations) (bs : list (list spec)) : delegations * list val :=
+  match bs with
+  | [] => (ds, [])
+  | b :: r =>
+      let built := map (build_spec lc) b in
+      let args := flat_map (fun x => match fst x with Some d => [d] | None => [] end) built in
+      let '(ds1, oe) := add_delegations ds args in
+      let o := VL [ VL (map snd built);
+                    match oe with None => VB true | Some e => VErr (exn_name e) end;
+                    VL (map (fun d => VS (d_id d)) (ds_items ds1)) ] in
+      let '(ds2, os) := run_batches lc ds1 r in (ds2, o :: os)
+  end.
+
+Definition observe_ops (t : verdicts) (ty : dtype) (bs : list (list spec)) : val :=
   let lc := check_of t in
-  let '(ds, outs) := run_specs lc (mkDs ty []) l in
+  let '(ds, outs) := run_batches lc (mkDs ty []) bs in
   let enc := to_json ds in
   VL [ VL outs; v_delegations ds; v_res v_jdoc enc;
        match enc with Ok doc => v_res v_delegations (from_json lc ty doc) | Err _ => VNone end ].
 
-Definition check_ops (c : (verdicts * dtype * list spec) * val) : bool :=
+Definition check_ops (c : (verdicts * dtype * list (list spec)) * val) : bool :=
   let '((t, ty, l), o) := c in val_eqb (observe_ops t ty l) o.
 
 (* ---- stream "json": decode a hand-made document, re-encode what was decoded ---- *)
